@@ -1,6 +1,7 @@
 """C04 - Hello properties faithfully encode the interface's attributes."""
 from props.base import *
 from props.blk import *
+XORACLE = True   # spec/SpecTx.v predicates, extracted, run on the implementation's trace
 COQ_TARGETS = ['props/Properties_C04.vo']
 RULE = ('attribute tuples: MAC random in 2^48, flags in 2^16 (0, 0x2000, 0x800, 0xFFFF, single bits, random), ifType / IPv4 / speed in 2^32 dense on byte-boundary values (0, 1, 0xFF, 0x100, '
         '0xFF00, 0x01020304, 0x80000000, 0xFFFFFFFF, random), IPv6 random, machine names and SSIDs of every length 0..40, RSSI -128, -127, -70, -1, 0, 1, 127, rate in 2^16, wireless on/off, '
@@ -32,7 +33,7 @@ def project(blk, name, meta):
     return ()
 def be(b): return int.from_bytes(b, 'big')
 def oracle(name, ib, mb, meta):
-    fails = []; kv = {}; g = {}
+    fails = []; kv = dict(t.split('=', 1) for t in Cfg(0).line().split()[2:]); g = {}
     for i, b in enumerate(ib):
         if b.op.startswith('cfg 0'): kv = dict(t.split('=', 1) for t in b.op.split()[2:])
         elif b.op.startswith('cfg g'): g = dict(t.split('=', 1) for t in b.op.split()[2:])
@@ -71,7 +72,7 @@ def oracle(name, ib, mb, meta):
             elif P[t] != want[t]: fails.append((i, 'property %s (%d) decodes to %s, the platform supplied %s' % (names.get(t, '?'), t, P[t].hex() or '(empty)', want[t].hex() or '(empty)')))
     return fails
 def count(name, lines, ib, stats, meta):
-    kv = {}
+    kv = dict(t.split('=', 1) for t in Cfg(0).line().split()[2:])
     for b in ib:
         if b.op.startswith('cfg 0'): kv = dict(t.split('=', 1) for t in b.op.split()[2:])
         if b.op.startswith('frame'):
